@@ -706,3 +706,179 @@ Section Net.
     apply inv_step; [exact Hc2|]. apply IH. exact Hc1.
   Qed.
 End Net.
+
+(* ------------------------------------------------------------------ *)
+(* Part D: the client, under every delivery order of the notifications  *)
+(* ------------------------------------------------------------------ *)
+From RP Require States.Model States.Inst.
+From Coq Require Import Permutation.
+
+(* TaskManager._update_tasks for one task and one notification (C06 model) *)
+Definition client_step (cur tgt : tstate) : tstate := fst (fst (RP.States.Inst.t_notify cur tgt)).
+Definition client_state (ns : list tstate) : tstate := fold_left client_step ns T_NEW.
+
+Lemma cs_final cur tgt : is_final cur = false -> is_final tgt = true -> client_step cur tgt = tgt.
+Proof. destruct cur, tgt; vm_compute; intros; first [reflexivity|discriminate]. Qed.
+Lemma cs_nonfinal cur tgt : is_final cur = false -> is_final tgt = false -> is_final (client_step cur tgt) = false.
+Proof. destruct cur, tgt; vm_compute; intros; first [reflexivity|discriminate]. Qed.
+Lemma cs_sticky cur tgt : is_final cur = true -> client_step cur tgt = cur.
+Proof. destruct cur, tgt; vm_compute; intros; first [reflexivity|discriminate]. Qed.
+
+Lemma client_sticky ns : forall cur, is_final cur = true -> fold_left client_step ns cur = cur.
+Proof. induction ns as [|x r IH]; intros cur H; simpl; [reflexivity|]. rewrite cs_sticky by exact H. apply IH. exact H. Qed.
+
+Lemma client_first_final ns s : forall cur,
+  is_final cur = false -> is_final s = true ->
+  (forall x, In x ns -> is_final x = true -> x = s) ->
+  (exists x, In x ns /\ is_final x = true) ->
+  fold_left client_step ns cur = s.
+Proof.
+  induction ns as [|x r IH]; intros cur Hc Hs Hall [y [Hy Hf]]; [contradiction|]. simpl.
+  destruct (is_final x) eqn:Ex.
+  - rewrite (Hall x (or_introl eq_refl) Ex) in *. rewrite cs_final by assumption. apply client_sticky. exact Hs.
+  - apply IH.
+    + apply cs_nonfinal; assumption.
+    + exact Hs.
+    + intros z Hz. apply Hall. right. exact Hz.
+    + destruct Hy as [<-|Hy]; [rewrite Ex in Hf; discriminate|]. exists y. split; assumption.
+Qed.
+
+Lemma notifications_finals u es x :
+  In x (notifications u es) -> is_final x = true -> In x (fin_sts u es).
+Proof.
+  unfold notifications, fin_sts, final_pubs. induction es as [|e r IH]; simpl; [auto|].
+  intros Hin Hf. rewrite map_app. apply in_or_app. apply in_app_or in Hin as [Hin|Hin].
+  - left. destruct e as [fl t|d t|v]; simpl in Hin; try contradiction.
+    destruct (t_uid t =? u); simpl in Hin; [|contradiction]. destruct Hin as [<-|[]].
+    rewrite Hf. simpl. left. reflexivity.
+  - right. apply IH; assumption.
+Qed.
+
+Lemma fin_sts_notifications u es x : In x (fin_sts u es) -> In x (notifications u es) /\ is_final x = true.
+Proof.
+  unfold notifications, fin_sts, final_pubs. induction es as [|e r IH]; simpl; [contradiction|].
+  rewrite map_app. intro Hin. apply in_app_or in Hin as [Hin|Hin].
+  - destruct e as [fl t|d t|v]; simpl in Hin; try contradiction.
+    destruct (t_uid t =? u); simpl in Hin; [|contradiction].
+    destruct (is_final (t_st t)) eqn:E; simpl in Hin; [|contradiction]. destruct Hin as [<-|[]].
+    split; [apply in_or_app; left; left; reflexivity|exact E].
+  - destruct (IH Hin) as [A B]. split; [apply in_or_app; right; exact A|exact B].
+Qed.
+
+(* whatever the order in which the notifications about a task arrive: if the
+   final states published for it all equal s (and there is one), the client ends in s *)
+Theorem client_any_order u es s ns :
+  fin_sts u es <> [] -> forallb (tstate_beq s) (fin_sts u es) = true ->
+  Permutation (notifications u es) ns -> client_state ns = s.
+Proof.
+  intros Hne Hall Hp.
+  assert (Heq : forall x, In x (fin_sts u es) -> x = s).
+  { intros x Hx. rewrite forallb_forall in Hall. specialize (Hall x Hx).
+    symmetry. apply internal_tstate_dec_bl. exact Hall. }
+  destruct (fin_sts u es) as [|y r] eqn:E; [congruence|].
+  assert (Hy : In y (fin_sts u es)) by (rewrite E; left; reflexivity).
+  destruct (fin_sts_notifications u es y Hy) as [Hyn Hyf].
+  assert (y = s) by (apply Heq; left; reflexivity). subst y.
+  unfold client_state. apply client_first_final.
+  - reflexivity.
+  - exact Hyf.
+  - intros x Hx Hf. apply Heq. rewrite <- E. apply notifications_finals; [|exact Hf].
+    apply (Permutation_in x (Permutation_sym Hp)). exact Hx.
+  - exists s. split; [apply (Permutation_in s Hp); exact Hyn|exact Hyf].
+Qed.
+
+(* ------------------------------------------------------------------ *)
+(* the statements of C05                                                *)
+(* ------------------------------------------------------------------ *)
+Definition wf_workload (W : list task) : Prop :=
+  NoDup (map t_uid W) /\
+  forall t0, In t0 W -> (exists u d f, t0 = fresh u d f) /\ bind_is PUnknown t0 = false.
+
+(* at every moment every accepted task is either queued exactly once, intact,
+   and has no final state yet -- or is queued nowhere and has its final state *)
+Theorem never_lost thr W evs t0 :
+  wf_workload W -> forallb calm evs = true -> In t0 W ->
+  let g := run (mkP true thr) (init W) evs in
+  (exists c, queued (t_uid t0) g = [(c, canon c t0)] /\ final_pubs (t_uid t0) (tr g) = [])
+  \/ (queued (t_uid t0) g = [] /\ final_pubs (t_uid t0) (tr g) <> []).
+Proof.
+  intros [Hnd Hw] Hc Hin g. destruct (inv_run thr W Hw Hnd evs Hc) as [_ Ik _].
+  destruct (Ik t0 Hin) as [(c & A & _ & B)|(A & B & _)].
+  - left. exists c. split; [exact A|]. unfold fin_sts in B. apply map_eq_nil in B. exact B.
+  - right. split; [exact A|]. intro E. apply B. unfold fin_sts. fold g. rewrite E. reflexivity.
+Qed.
+
+Theorem one_truthful_final_partial thr W evs t0 :
+  wf_workload W -> forallb calm evs = true -> In t0 W ->
+  let g := run (mkP true thr) (init W) evs in
+  let u := t_uid t0 in
+  queued u g = [] ->
+  exists s,
+    fin_sts u (tr g) <> [] /\ (forall x, In x (fin_sts u (tr g)) -> x = s) /\
+    truthful t0 (ev_cancels u evs) (ev_bulkf evs) s = true /\
+    forall ns, Permutation (notifications u (tr g)) ns -> client_state ns = s.
+Proof.
+  intros [Hnd Hw] Hc Hin g u Hq. destruct (inv_run thr W Hw Hnd evs Hc) as [_ Ik _].
+  destruct (Ik t0 Hin) as [(c & A & _)|(_ & B & C & D)].
+  - unfold queued in Hq. fold g in A. unfold quid in A. fold u in A. rewrite Hq in A. discriminate.
+  - fold g u in B, C, D. exists (hd T_NEW (fin_sts u (tr g))). split; [exact B|]. split; [|split; [exact D|]].
+    + intros x Hx. rewrite forallb_forall in C. symmetry. apply internal_tstate_dec_bl. apply C. exact Hx.
+    + intros ns Hp. eapply client_any_order; eassumption.
+Qed.
+
+Lemma fin_sts_final u es x : In x (fin_sts u es) -> is_final x = true.
+Proof. intro H. apply (fin_sts_notifications u es x H). Qed.
+
+(* isolation, network level: a task with no fault of its own, exit code 0 and
+   no cancel request ends DONE whatever happens to the other tasks, whatever
+   the bulks and the delivery order (no bulk-level fault injected) *)
+Theorem fault_isolation thr W evs t0 :
+  wf_workload W -> forallb calm evs = true -> In t0 W ->
+  let g := run (mkP true thr) (init W) evs in
+  let u := t_uid t0 in
+  queued u g = [] ->
+  any_fault t0 = false -> f_exec (t_f t0) = XExit 0 ->
+  ev_cancels u evs = false -> ev_bulkf evs = false ->
+  forall x, In x (fin_sts u (tr g)) -> x = T_DONE.
+Proof.
+  intros Hwf Hc Hin g u Hq Haf Hx Hcr Hbf x Hxin.
+  destruct (one_truthful_final_partial thr W evs t0 Hwf Hc Hin Hq) as (s & _ & Hall & Ht & _).
+  fold g u in Hall, Ht. rewrite (Hall x Hxin). pose proof (fin_sts_final u (tr g) x Hxin) as Hf.
+  rewrite (Hall x Hxin) in Hf. rewrite Hcr, Hbf in Ht.
+  destruct s; try discriminate; try reflexivity; unfold truthful in Ht; rewrite ?Haf, ?Hx in Ht.
+  - cbn in Ht. discriminate.
+  - unfold any_fault in Haf. destruct (f_sched (t_f t0)); [cbn in Ht; discriminate| |];
+      repeat (apply orb_false_iff in Haf; destruct Haf as [Haf ?]); congruence.
+Qed.
+
+(* isolation, station level: stations that catch per task *)
+Definition catches_per_task (c : comp) : bool :=
+  match c with CTSched | CTIn | CTOut => false | _ => true end.
+
+Theorem station_isolation c P cl B bf u :
+  NoDup (map t_uid B) -> catches_per_task c = true ->
+  proj u (snd (work_cb c P cl B bf)) = seen c P (zmem u cl) false (only u B).
+Proof.
+  intros Hnd Hc. rewrite work_cb_proj by assumption. destruct c; try discriminate; reflexivity.
+Qed.
+
+(* the full statement fails: a bulk-level exception at the tmgr scheduler
+   (its _work raises) after an early-bound task of the same bulk was pushed *)
+Definition wit_W : list task :=
+  [ fresh 1 (mkD PKnown false false false false false) (mkF false false false SStart (XExit 0) false false false);
+    fresh 2 (mkD PNone false false false false false) (mkF false false false SStart (XExit 0) false false false) ].
+Definition wit_evs : list event :=
+  EDeliver CTSched 2 true
+  :: map (fun c => EDeliver c 2 false) [CTIn; CA0In; CAIn; CASched; CAExec; CAOut; CA0Out; CTOut].
+
+Theorem one_truthful_final_refuted :
+  exists W evs, wf_workload W /\
+    let g := run (mkP true 1000) (init W) evs in
+    toks g = [] /\ fin_sts 1 (tr g) = [T_FAILED; T_DONE].
+Proof.
+  exists wit_W, wit_evs. split.
+  - split.
+    + repeat constructor; simpl; intuition discriminate.
+    + intros t0 [<-|[<-|[]]]; (split; [do 3 eexists; reflexivity|reflexivity]).
+  - vm_compute. split; reflexivity.
+Qed.
